@@ -75,6 +75,21 @@ func c12Shapes() []c12Shape {
 				return fmt.Sprintf("hv count=%d bucket<=%v", int64(math.MaxInt64), uppers[v%3])
 			}
 		}},
+		{"value-histogram-wide-later-bucket", func(r m3.Reporter) (int32, func(int) string) {
+			// the label of the second bucket is much longer than the label of the first
+			h := r.AllocateHistogram("hw", nil, tally.ValueBuckets{1, 1e12})
+			sizes := m3.VerifBucketChargedSizes(h)
+			var max int32
+			for _, s := range sizes {
+				if s > max {
+					max = s
+				}
+			}
+			return max, func(v int) string {
+				h.ValueBucket(0, 1e12).ReportSamples(math.MaxInt64)
+				return fmt.Sprintf("hw count=%d", int64(math.MaxInt64))
+			}
+		}},
 		{"duration-histogram-buckets-3tags", func(r m3.Reporter) (int32, func(int) string) {
 			h := r.AllocateHistogram("hd", c12Tags(3), tally.DurationBuckets{time.Millisecond, time.Second})
 			sizes := m3.VerifBucketChargedSizes(h)
@@ -97,7 +112,7 @@ func c12Shapes() []c12Shape {
 // limitSpec: "min+K" = smallest limit at which every single metric fits, plus K; or an absolute number.
 func c12Run(kind string, ncommon int, limitSpec string, seq []int, reps int) (string, string, int) {
 	shapes := c12Shapes()
-	s := newSink()
+	s := newFastSink()
 	defer s.close()
 	steps := 0
 	common := map[string]string{}
@@ -141,7 +156,7 @@ func c12Run(kind string, ncommon int, limitSpec string, seq []int, reps int) (st
 	if perr != nil {
 		return "new-reporter", perr.Error(), steps
 	}
-	_ = s.wait(0)
+	_ = s.drain(0)
 	var limit int32
 	if strings.HasPrefix(limitSpec, "min+") {
 		var k int32
@@ -186,7 +201,7 @@ func c12Run(kind string, ncommon int, limitSpec string, seq []int, reps int) (st
 	if rcl != "" {
 		return rcl, rdet, steps
 	}
-	dgs := s.wait(1)
+	dgs := s.drain(1)
 	var got []string
 	for i, dg := range dgs {
 		if int32(len(dg)) > limit {
@@ -214,6 +229,8 @@ func c12Run(kind string, ncommon int, limitSpec string, seq []int, reps int) (st
 					fmt.Sscan(up, &u)
 				}
 				got = append(got, fmt.Sprintf("hv count=%d bucket<=%v", m.Value.Count, u))
+			case m.Name == "hw":
+				got = append(got, fmt.Sprintf("hw count=%d", m.Value.Count))
 			case m.Name == "hd":
 				up := bucket[strings.LastIndex(bucket, "-")+1:]
 				u := time.Duration(math.MaxInt64)
